@@ -1,5 +1,8 @@
 //! fdv — bounded-exhaustive exploration (model checking) harness for alusch/flipdot.
+pub mod bfs;
 pub mod props;
 pub mod refmodel;
+pub mod refsign;
 pub mod report;
+pub mod signsys;
 pub mod util;
